@@ -24,14 +24,15 @@ Theorem sm_to_ssc_timing sf charts tmpl_chart out cs :
   sm_to_ssc sf charts None tmpl_chart = COk (out, cs) ->
   has kBPMS sf = true -> has kSTOPS sf = true -> has kOFFSET sf = true -> has kVERSION sf = false ->
   chart_has_timing (chart_tmpl_of Tables.blank_ssc_chart tmpl_chart) = false ->
+  NoDupKeys (chart_tmpl_of Tables.blank_ssc_chart tmpl_chart) ->
   (forall c key, List.In c charts -> List.In key Tables.chart_timing_properties -> get key c = None) ->
   forall i c c', nth_error charts i = Some c -> nth_error cs i = Some c' ->
     timing_data KSSC out CSSC c' = timing_data KSM sf CSM c.
 Proof.
-  intros Hnd Hc H Hb Hs Ho Hv Hct Hkeys i c c' Hi Hi'.
+  intros Hnd Hc H Hb Hs Ho Hv Hct Hctn Hkeys i c c' Hi Hi'.
   assert (Hneg : sm_negative_timing sf = COk false).
   { unfold sm_to_ssc in H. destruct (sm_negative_timing sf) as [[|]| | | |]; try discriminate. reflexivity. }
-  destruct (sm_to_ssc_spec sf charts None tmpl_chart Hnd Hc Hneg) as (out' & cs' & E & Hsame & Hrest & Hlen & Hcharts).
+  destruct (sm_to_ssc_spec sf charts None tmpl_chart Hnd Hc Hneg Hctn) as (out' & cs' & E & Hsame & Hrest & Hlen & Hcharts).
   rewrite H in E. cbn [base_of snd app] in E. inversion E; subst out' cs'. clear E. cbn [base_of fst] in Hrest.
   destruct (Hcharts i c Hi) as (c'' & Hi'' & Csame & Crest). rewrite Hi' in Hi''. inversion Hi''; subst c''. clear Hi''.
   destruct blank_ssc_facts as (Bv & Bd & Bw).
